@@ -57,7 +57,7 @@ func (b *srvBox) restart(gen int) {
 		fmt.Printf("C18: ts-server restarted after an unanswered query (restart %d, %.1fs, ok=%v)\n", b.restarts, time.Since(t0).Seconds(), !b.dead)
 	}()
 	b.s.Kill()
-	if b.restarts > 12 {
+	if b.restarts > 40 {
 		b.dead = true
 		return
 	}
